@@ -20,6 +20,9 @@ type indexEntry struct {
 	To    int      `json:"to"`
 	Fatal string   `json:"fatal,omitempty"`
 	Notes []string `json:"notes,omitempty"`
+	// schedule gating: release steps that found the connection parked where the schedule says / that did not
+	Followed int `json:"followed,omitempty"`
+	Diverged int `json:"diverged,omitempty"`
 }
 
 func main() {
@@ -81,7 +84,7 @@ func main() {
 			fmt.Fprintln(os.Stderr, err)
 			os.Exit(2)
 		}
-		e := indexEntry{ID: scs[i].ID, From: line + 1, To: line + n, Fatal: runs[i].Fatal, Notes: runs[i].Notes}
+		e := indexEntry{ID: scs[i].ID, From: line + 1, To: line + n, Fatal: runs[i].Fatal, Notes: runs[i].Notes, Followed: runs[i].Followed, Diverged: runs[i].Diverged}
 		if e.Fatal != "" {
 			fatals++
 		}
